@@ -13,6 +13,7 @@ from panoptica.utils.processing_pair import (
 )
 from panoptica.utils.instancelabelmap import InstanceLabelMap
 from panoptica.utils.config import SupportsConfig
+from panoptica.utils.numpy_utils import _get_smallest_fitting_uint
 
 
 class InstanceMatchingAlgorithm(SupportsConfig, metaclass=ABCMeta):
@@ -125,13 +126,20 @@ def map_instance_labels(
 
     assert np.all([i in pred_labelmap for i in pred_labels])
 
+    # the fresh labels of unmatched predictions may exceed the arrays' dtype (e.g. 255 + 1 in uint8): widen both arrays
+    reference_arr = processing_pair._reference_arr
+    dtype = _get_smallest_fitting_uint(label_counter)
+    if np.dtype(dtype).itemsize > prediction_arr.dtype.itemsize:
+        prediction_arr = prediction_arr.astype(dtype)
+        reference_arr = reference_arr.astype(dtype)
+
     # Using the labelmap, actually change the labels in the array here
     prediction_arr_relabeled = _map_labels(prediction_arr, pred_labelmap)  # type:ignore
 
     # Build a MatchedInstancePair out of the newly derived data
     matched_instance_pair = MatchedInstancePair(
         prediction_arr=prediction_arr_relabeled,
-        reference_arr=processing_pair._reference_arr,
+        reference_arr=reference_arr,
     )
     return matched_instance_pair
 
